@@ -6,7 +6,7 @@ PROP = dict(
     engine="hist",
     technique="explicit exploration of ALL request histories up to a depth on the real per-thread plan caches (one fresh thread per history), "
               "for cache sizes 1, 2, 4; hook-observed LRU discipline + bit-identical results against a fresh thread",
-    claim="for K in {1,2,4} (three builds) and five alphabets (complex, real, mixed, one whose histories contain rejected requests - odd irfft lengths, a plan applied to another length - and two with long-lived plan objects: FftPlan/FftPlanR/IfftPlan, and IfftPlanR/CztPlan) every request "
+    claim="for K in {1,2,4} (three builds) and six alphabets (complex, real, mixed, zero-padded/truncated fft(x, n) with inputs of different lengths, one whose histories contain rejected requests - odd irfft lengths, a plan applied to another length - and two with long-lived plan objects: FftPlan/FftPlanR/IfftPlan, and IfftPlanR/CztPlan) every request "
           "sequence of length <= 6 (thorough 8; 5/6 for the 10-letter alphabets) is executed in a fresh thread and its last request is checked for "
           "(1) bit-identical result versus a brand-new thread and (2) the LRU discipline of both caches read through the DSPLIB_VERIF accessor; "
           "plus a deterministic 10^4-request sequence over 40 lengths with held plans, and an ASan pass (use after eviction). Exhaustive "
@@ -17,9 +17,9 @@ PROP = dict(
     rule="case = one request history (sequence of letters) replayed on fresh thread_local caches; non-trivial = length >= 2; "
          "states = distinct (K, alphabet, complex key list, real key list) reached; transitions = histories executed (each checks its last "
          "request); traces_validated_against_impl = the same executions (no separate model)",
-    bounds=dict(quick="K in {1,2,4}; alphabets A,B,C,E: all sequences of length <= 6 over 6 letters (55986 each); D, F: length <= 5 over 10 letters; "
+    bounds=dict(quick="K in {1,2,4}; alphabets A,B,C,E,G: all sequences of length <= 6 over 6 letters (55986 each); D, F: length <= 5 over 10 letters; "
                       "long sequence 2 x 2000 requests; ASan pass depth 4",
-                thorough="alphabets A,B,C,E: length <= 8 (2.0M each per K); D, F: length <= 6 (1.1M each per K); long sequences 4 x 10^4; ASan pass depth 5"),
+                thorough="alphabets A,B,C,E,G: length <= 8 (2.0M each per K); D, F: length <= 6 (1.1M each per K); long sequences 4 x 10^4; ASan pass depth 5"),
     deadline=dict(quick=150, thorough=1500),
     passes=[
         dict(name="k1", cache_size=1),
